@@ -712,8 +712,10 @@ fn main() {
                 ob.push(&src.text[pos..bc_end], json!({"kind": "body", "fn": id, "tags": body_tags, "src_file": file, "src_line": src.line_of(pos)}));
                 ob.push("\n", json!({"kind": "sep"}));
                 let _ = bc;
+                // the function's name on the Verus side (R1 may rename it)
+                let verus_name = sig.text.split("fn ").nth(1).map(|r| r.chars().take_while(|c| c.is_alphanumeric() || *c == '_').collect::<String>()).unwrap_or(name.clone());
                 fns.push(json!({
-                    "id": id, "fn": name, "file": file, "tags": tags,
+                    "id": id, "fn": name, "verus_name": verus_name, "file": file, "tags": tags,
                     "src_line_start": src.line_of(sig_a), "src_line_end": src.line_of(bc_end),
                     "source_sig": sig_text,
                     "body": &src.text[bo..bc_end],
